@@ -27,6 +27,11 @@ traffic (one dsp call).  Proved here, for EVERY store, trace and run length:
   (`C12_discipline_fn_arg_and_result_leak`); `C12_witness_*`: the traces recorded from the real VM for the minimal
   witnesses of the open findings are not balanced (`decide +kernel`; the check compares them with the VM every run).
 
+* `C12_walks_same_offsets_matched`, `C12_walks_matched_iff_same_offsets`, `C12_index_walk_correct_on_unit_sizes`,
+  `C12_index_walk_breaks_multiword_payload`: the clone walk and the release walk over a variant payload retain and
+  release every handle equally often iff they visit the same word offsets; the element index is the word offset only
+  when all elements are one word wide.
+
 NOT proved: that `mirgen`/`bytecodegen` emit these fragments for every program (the generated programs' real traffic
 is judged instead, op by op, by the correspondence stage), reachability from roots (hand-over is accepted only when
 count-neutral, see `balanced`).
@@ -289,6 +294,61 @@ theorem C12_discipline_fn_arg_and_result_leak (s s' : Store) (t : Trace) (c h : 
       countKind_replicate_close _ _ _ _ (by decide : Kind.free ≠ .close)] at a b
     simp [countKind, hc, hh] at a b
     omega
+
+/-! ## payload walks of `CloneUserSum` / `ReleaseUserSum` must visit the same word offsets -/
+
+/-- if the clone walk and the release walk of a payload visit the same offsets (in any order), every handle in the
+payload is retained exactly as often as it is released — whatever the words contain -/
+theorem C12_walks_same_offsets_matched (words : List (Option Key)) (o1 o2 : List Nat) (h : o1.Perm o2) (k : Key) :
+    countOp .retain k (walk .retain words o1) = countOp .release k (walk .release words o2) := by
+  rw [countOp_walk, countOp_walk]
+  exact visits_perm h k
+
+/-- … and ONLY then: when the visited words hold pairwise distinct handles, retains and releases match for every
+handle iff the two walks visit the same offsets equally often. -/
+theorem C12_walks_matched_iff_same_offsets (words : List (Option Key)) (o1 o2 : List Nat)
+    (hinj : ∀ i j k, wordAt words i = some k → wordAt words j = some k → i = j)
+    (hhit : ∀ o, o ∈ o1 ∨ o ∈ o2 → ∃ k, wordAt words o = some k) :
+    (∀ k, countOp .retain k (walk .retain words o1) = countOp .release k (walk .release words o2)) ↔ o1.Perm o2 := by
+  constructor
+  · intro h
+    rw [List.perm_iff_count]
+    intro j
+    cases hw : wordAt words j with
+    | some k =>
+      have := h k
+      rw [countOp_walk, countOp_walk, visits_eq_count words o1 j k hw (fun i hi => hinj i j k hi hw),
+        visits_eq_count words o2 j k hw (fun i hi => hinj i j k hi hw)] at this
+      exact this
+    | none =>
+      have n1 : j ∉ o1 := fun hm => by obtain ⟨k, hk⟩ := hhit j (Or.inl hm); rw [hw] at hk; cases hk
+      have n2 : j ∉ o2 := fun hm => by obtain ⟨k, hk⟩ := hhit j (Or.inr hm); rw [hw] at hk; cases hk
+      rw [List.count_eq_zero_of_not_mem n1, List.count_eq_zero_of_not_mem n2]
+  · intro h k
+    exact C12_walks_same_offsets_matched words o1 o2 h k
+
+/-- using the element index as word offset is right exactly as long as every element is one word wide
+(all shipped recursive types: `Cons(float, List)`, `Node(Tree, float, Tree)` …) -/
+theorem C12_index_walk_correct_on_unit_sizes (layout : List Elem) (h : ∀ e ∈ layout, e.size = 1) (i : Nat) :
+    indexOffsets layout i = trueOffsets layout i := by
+  induction layout generalizing i with
+  | nil => rfl
+  | cons e es ih =>
+    have he : e.size = 1 := h e (List.mem_cons_self ..)
+    simp only [indexOffsets, trueOffsets, he]
+    rw [ih (fun e' he' => h e' (List.mem_cons_of_mem _ he'))]
+
+/-- `type rec PList = PNil | PCons((float,float), PList)` (seeded change C12a): the index walk visits word 1 (a float)
+instead of word 2 (the tail), the walks are not permutations of each other, and the traffic of
+`let s = PCons(p, PNil)  { let l = PCons(q, s) }` — accepted with the true walk — is rejected by the judge with the
+index walk: `s` is released below zero. -/
+theorem C12_index_walk_breaks_multiword_payload :
+    let layout : List Elem := [⟨2, false⟩, ⟨1, true⟩]
+    let words : List (Option Key) := [none, none, some (h 1 1)]
+    indexOffsets layout 0 = [1] ∧ trueOffsets layout 0 = [2] ∧
+    strictlyBalanced [] (embedFrame (h 1 1) (h 2 1) words layout (trueOffsets layout 0)) = true ∧
+    run [] (embedFrame (h 1 1) (h 2 1) words layout (indexOffsets layout 0)) = none := by
+  decide +kernel
 
 /-! ## the recorded witnesses of the open findings (traffic of one steady-state dsp call of the real VM) -/
 
